@@ -681,6 +681,8 @@ def judge(ctx, pid, c, r, mo, so, guard, sanitize, verbose=False, memory_only=Fa
     # the theorem's guard, evaluated on the case, must imply a safe model verdict
     if f["safe"](c):
         ctx.correspondence("guard of the %s theorem => impl model returns Ok" % fn, short(c), True, model_ok)
+    if r[0] == "changed" and memory_only:
+        return False          # (C12 judges memory safety only: a value that is a view of reused state is C11's finding)
     if r[0] == "changed":
         # the value the codec function returned was right after the call (or this line would not replace the first one) and
         # showed something else after later calls: it was a view of state that outlives the call
